@@ -229,26 +229,27 @@ pub fn cases(tier: &str, seed: u64, focus: &str) -> Vec<EncCase> {
     }
 
     // three runs of different classes, and a run followed by a digit run of every length (look-ahead thresholds)
-    let ntrip = if thorough { 8000 } else { 1500 };
+    let ntrip = if thorough { 12000 } else { 3000 };
+    let trip_classes = [Class::Upper, Class::Lower, Class::LowerSpace, Class::Digits, Class::EdifactPunct, Class::X12, Class::Shift2, Class::High, Class::UpperDigit];
     for _ in 0..ntrip {
         let mut s = Vec::new();
         for _ in 0..3 {
-            let c = *rng.pick(&CLASSES);
+            let c = if rng.chance(5, 6) { *rng.pick(&trip_classes) } else { *rng.pick(&CLASSES) };
             let n = rng.range(1, 12);
             s.extend(class_string(&mut rng, c, n));
         }
         push_cfgs(&mut out, &mut rng, &g, "triples", &s, 1, focus);
     }
+    let suffixes: [&[u8]; 7] = [b"", b"/A", b"a", b" ", b"\x80", b"AB", b"!"];
     for class in [Class::Upper, Class::Lower, Class::LowerSpace, Class::UpperDigit, Class::X12, Class::EdifactPunct, Class::Mixed] {
-        for pre in [0usize, 1, 2, 3, 5, 8, 9, 12] {
+        for pre in 0..=14usize {
             for d in 1..=14usize {
-                let reps = if thorough { 3 } else { 1 };
-                for _ in 0..reps {
+                let nsuf = if thorough { suffixes.len() } else { 2 };
+                for k in 0..nsuf {
+                    let suf: &[u8] = if thorough { suffixes[k] } else { *rng.pick(&suffixes[..]) };
                     let mut s = class_string(&mut rng, class, pre);
                     s.extend(class_string(&mut rng, Class::Digits, d));
-                    if rng.chance(1, 2) {
-                        s.extend_from_slice(*rng.pick(&[&b"/A"[..], b"a", b" ", b"\x80", b"AB", b"!"]));
-                    }
+                    s.extend_from_slice(suf);
                     push_cfgs(&mut out, &mut rng, &g, "digitRuns", &s, 1, focus);
                 }
             }
